@@ -12,6 +12,9 @@ from ..pools import Pools
 from .common import file_of, strip_ansi
 
 FRAGMENTS = [")", "]", "= 3", "+ +", ": :", "42", "\"s\"", ".", "->", "@#", "}", "else", "? 1"]
+# fragments no token rule matches at all (the lexer reports them as BAD_LEXEME and drops them); RAW ones are undecodable bytes
+LEXICAL = ["@", "$ $", "`", "\u00a7"]
+RAW = ["\xff\xfe", "\x80", "\xc3"]
 
 
 def stmt_kind(line):
@@ -40,7 +43,7 @@ class C07(Engine):
     prop = "C07"
     name = "read-fault-sim+conservation-monitor"
     level = "fault_enumeration"
-    expected_kinds = {"fault_free", "garbage_nl_kept", "garbage_nl_lost", "lost_final_newline", "multi_file_garbage", "stray_eol"}
+    expected_kinds = {"fault_free", "garbage_nl_kept", "garbage_nl_lost", "lost_final_newline", "multi_file_garbage", "stray_eol", "lexical_garbage"}
     rule_text = ("Fault-free: every workload file at API level with the conservation monitor (I1 for all, I2/I3 for files the tool "
                  "itself finds clean, statement count for generated files). Fault-injecting: for every workload program and EVERY "
                  "statement boundary, seeded fragments of the unrecognisable family, newline kept or lost, plus the lost final "
@@ -120,6 +123,27 @@ class C07(Engine):
                               "ops": [{"op": "cli", "argv": (["--no-colors"] if (idx % 3) else ["-f", "json"]) + [f["name"]]}]}
                         yield idx, sc
                         idx += 1
+            # lexical garbage (no token rule matches): at every boundary that is a token start (not inside a comment or literal)
+            tok_starts = set(a for a, e, t in faults.token_offsets(core.N, f["name"], content)) | {len(content)}
+            for bi, off in enumerate(offs):
+                if off not in tok_starts:
+                    continue
+                prev = stmt_kind(lines[bi - 1]) if bi > 0 else "bof"
+                picks = [r.choice(LEXICAL), r.choice(RAW)] if q else LEXICAL + RAW
+                for frag in picks:
+                    nl = r.random() < 0.7
+                    fd = {"name": f["name"], "base": b, "fault_desc": f"lexgarbage({bi},{frag!r},{nl})"}
+                    if frag in RAW:
+                        import base64
+                        fd["splices"] = []
+                        fd["append_bytes_b64"] = base64.b64encode(frag.encode("latin-1") + (b"\n" if nl else b"")).decode()
+                        fd["bytes_at"] = len(content[:off].encode("utf-8"))
+                    else:
+                        fd["splices"] = [[off, off, frag + ("\n" if nl else "")]]
+                    yield idx, {"kind": "garbage", "fault": "lexical_garbage", "desc": fd["fault_desc"], "prev": prev, "frag": frag, "nl": nl,
+                                "at_eof": off == len(content), "lexical": True,
+                                "files": {"x": fd}, "tree": {f["name"]: "@x"}, "ops": [{"op": "cli", "argv": ["--no-colors", f["name"]]}]}
+                    idx += 1
             # lost final newline
             if content.endswith("\n"):
                 sc = {"kind": "garbage", "fault": "lost_final_newline", "desc": "prefix_tok(n-1)", "prev": "eof", "frag": "", "nl": False,
@@ -297,6 +321,12 @@ class C07(Engine):
                 vs += self.check_I5(sc, o)
         elif kind == "garbage":
             vs += self.check_I1(o, "garbage")
+            if sc.get("lexical") and o.get("end") == "exit":
+                reported = [f for rep in o.get("reports") or [] for f in rep["files"]]
+                if reported and reported[0]["status"] == "OK" and o.get("exit") == 0:
+                    vs.append(Violation(self.prop, "C07.I4-no-silent-drop",
+                                        "text no token rule matches was dropped: the file is reported OK! with status 0",
+                                        {"fault": sc.get("desc"), "stdout_head": strip_ansi(o.get("stdout", ""))[:100]}))
             pops = o.get("pops") or []
             unmatched = [p for p in pops if p[3] is None]
             if unmatched and o.get("end") not in ("internal", "hang", "slow", "invalid-scenario"):
